@@ -60,6 +60,7 @@ func init() {
 			p.ruleSegmentForwarders(c)
 			p.ruleB1(c, nil)
 			p.ruleB1Searcher(c)
+			p.ruleNudge(c)
 			p.ruleM1(c, map[string]bool{"geometry.Segment.Raycast": true})
 			p.ruleE8(c, "geometry.Rect.ContainsPoint", "geometry.Segment.Raycast#comparison-prefix", "geometry.Segment.Raycast#post-nudge")
 			p.ruleAccelTables(c, effects(p))
@@ -154,7 +155,7 @@ func init() {
 	})
 	register(&PropertyDef{
 		ID: "C08", Level: "other",
-		Explanation: "Decides: (V3) options reach every nested parse/constructor unchanged; (V4) RequireValid is honoured by all nine typed parsers (Valid() tested under it, or children parsed through Parse); (V6/E8) representation options: SimplePoint and Point are built from the same parsed position and only without extras; the AllowRects test selects exactly the axis-parallel rectangles — tabulated over all order types of the five positions — and the Rect is spanned by positions 0 and 2; (P1) a SimplePoint geometry is recognised wherever a Point is (Circle recognition); index options influence only accelerator fields, which only Search reads (E3.own); SimplePoint/Rect cells dispatch like Point/Polygon cells (E1). NOT decided: equality of predicate answers between Rect and its polygon (numerical).",
+		Explanation: "Decides: (V3) options reach every nested parse/constructor unchanged; (V4) RequireValid is honoured by all nine typed parsers (Valid() tested under it, or children parsed through Parse); (V6/E8) representation options: SimplePoint and Point are built from the same parsed position and only without extras; the AllowRects test selects exactly the axis-parallel rectangles — tabulated over all order types of the five positions — and the Rect is spanned by positions 0 and 2; (P1) a SimplePoint geometry is recognised wherever a Point is (Circle recognition); index options influence only accelerator fields, which only Search reads (E3.own), and the index they ask for holds every segment of the series (E9.I5: the build loop runs i = 0 … NumSegments()-1 and no iteration skips the insertion); SimplePoint/Rect cells dispatch like Point/Polygon cells (E1). NOT decided: equality of predicate answers between Rect and its polygon (numerical).",
 		Run: func(p *Program, c *Check) {
 			p.ruleOptionPropagation(c)
 			p.ruleRequireValid(c)
@@ -162,6 +163,7 @@ func init() {
 			p.ruleE8(c, "geojson.parseJSONPolygon#AllowRects-condition")
 			p.ruleP1(c)
 			p.ruleAccelTables(c, effects(p))
+			p.ruleBuildIndex(c)
 			kinds := p.leafKinds(c, "E1")
 			p.ruleA1A2(c, kinds, true, true, "")
 			p.ruleA7(c)
@@ -195,6 +197,7 @@ func init() {
 		Run: func(p *Program, c *Check) {
 			p.ruleCollectionFold(c)
 			p.ruleCollectionSearch(c)
+			p.ruleCollectionWithin(c)
 			p.ruleFolds(c)
 			p.ruleE8(c, "geojson.unionRects", "geometry.Rect.IntersectsRect")
 			p.ruleCallbackProtocol(c)
@@ -234,6 +237,7 @@ func init() {
 			kinds := p.leafKinds(c, "E1")
 			p.ruleA3(c, pointKinds(kinds), false, true)
 			p.ruleCircleConvention(c)
+			p.ruleCircleConstructor(c)
 			p.ruleFloatFormat(c)
 		},
 	})
@@ -293,6 +297,7 @@ func init() {
 		Explanation: "Decides: ContainsPoint is Raycast(p).On and ContainsSegment is 'both endpoints On' (E12); the comparison prefix of Raycast (band test, zero-length / horizontal / vertical on-segment cases) and its post-nudge early exits are exact for every order type; the bounding-box prefix of IntersectsSegment returns false exactly for disjoint boxes and true only for a shared endpoint; Segment.Rect is the exact box; eqZero is the two-sided zero test (E8, exhaustive); every if/else whose condition compares the same field of two points is an exact mirror under the swap and every X statement equals its Y twin (E2.M1). NOT decided: the on-segment ratio test, the nudge, the slope comparison, the parametric t/u test, collinear overlap — arithmetic (the pinned kernel misses some collinear-overlap cases; see DESIGN.md).",
 		Run: func(p *Program, c *Check) {
 			p.ruleSegmentForwarders(c)
+			p.ruleNudge(c)
 			p.ruleM1(c, map[string]bool{"geometry.Segment.Raycast": true, "geometry.Segment.IntersectsSegment": true, "geometry.Segment.Rect": true})
 			p.ruleE8(c, "geometry.Segment.Raycast#comparison-prefix", "geometry.Segment.Raycast#post-nudge", "geometry.Segment.IntersectsSegment#box-prefix", "geometry.Segment.Rect")
 			c.Exhaustive = true
